@@ -2074,11 +2074,11 @@ namespace awkward {
       return out.get()->simplify_uniontype(true, true);
     }
     else {
-      return std::make_shared<IndexedArrayOf<T, ISOPTION>>(
-        Identities::none(),
-        parameters_,
-        index_,
-        content_.get()->fillna(value));
+      IndexedArrayOf<T, ISOPTION> out(Identities::none(),
+                                      parameters_,
+                                      index_,
+                                      content_.get()->fillna(value));
+      return out.simplify_optiontype();
     }
   }
 
